@@ -72,6 +72,12 @@ CLAIMED = {
    text="Proof: Runs/Model.v models Interpreter's run bookkeeping (scope chain, env_guards, call_stack, active VM, parked continuations, active_base) with begin_run / abort_active_execution / finalize_active_execution as in the current source (fixes fc19135, 2c5aaff). c11_every_run_starts_clean: for EVERY history of runs - each run an arbitrary sequence of enter/leave/suspend events over blocks, loop bodies, calls and finally bodies, i.e. a run may die at any point inside any nesting - every run starts from the scope chain, roots, trace stack and continuation set of a fresh interpreter (completing runs are required to be well bracketed). c11_failed_run_leaves_nothing: a failed run is clean as soon as the error is returned. c11_bookkeeping_at_point: guards/call-stack/scope counts at a program point are the sums over its nesting path. Witness history and the pre-fix behaviour (c11_prefix_refuted) by vm_compute. Tie on every run: 150 (1200) nesting paths x {script, module} abandoned at the innermost point, hook summary compared with at_point evaluated in Coq; 120 (1500) histories of 1-3 dying runs (throw, ReferenceError, TypeError, thrown object, abandon; nests incl. re-entering natives, generators, async; parse/compile errors, parked orders/promises, deep recursion) each followed by 7 observer programs compared (status, value, console, error class/message/stack, hook summary) with a fresh interpreter.",
    note="Trusted: Coq kernel + vm_compute; the verif_summary hook; Rust harness (th seq); Python generators. The model carries bookkeeping only; values and the heap are covered by the observers. Global effects a program makes on purpose (script-level declarations, globalThis) are outside the property.",
    design_ref="DESIGN.md §5 C11"),
+ "C14": dict(
+   engine="Runs",
+   technique="Coq proof (live count after a collection = size of the guard-reachable set, for every heap of the Gc model; every statement of a structured language with break/continue/return/throw, loops, calls, generator resumptions and try/catch/finally leaves the env_guards depth it found) + correspondence of that language with the interpreter (outcome, trace, env_guards) + repeated-run heap measurements + regenerated push/pop-site facts",
+   text="Proof: c14_live_after_collect_is_reachable_count (on Gc/Model.v, the model tied to src/gc.rs by the C13 correspondence): for every well-formed heap the number of live objects after collect equals the number of objects reachable from live guards - cycles, closures, settled promises do not matter. c14_every_exit_releases_its_roots / c14_program_leaves_no_roots (Runs/Exits.v, mirroring PushScope/PopScope, Break/Continue with scope counts, finally in the scope of its try, frame return and generator resume after fixes 49d9f87, 6615b90): by induction over fuel and statement structure, every statement, however control leaves it, restores the environment-guard depth it found; the pre-fix leaks (break out of a scoped block, return from inside a block, generator resume) are refuted by vm_compute witnesses. Tie on every run: 160 (1500) programs of the structured language rendered to TypeScript and run 6 times: outcome kind, console trace and env_guards compared with run_program evaluated in Coq, heap constant; 47 corpus programs x {script, module} + 40 (600) generated programs repeated 8 (16) times under GC thresholds {default, 1, 5}, incl. runs ending in uncaught errors: live objects after collect() constant after 2 warm-up runs; FactsAgreeC14 (push_env_guard/pop_env_guard sites).",
+   note="Trusted: Coq kernel + vm_compute; C13's correspondence for the Gc model; the verif_summary hook and gc_stats; Rust harness; Python generators. Not modelled: values held in registers/pools (register_guard release is covered by the measurements only); a try statement nested directly inside a finally block is excluded from the generated structured programs (C01 known deviation L-Control).",
+   design_ref="DESIGN.md §5 C14"),
 }
 
 NOT_YET = "not claimed yet in this revision: its model/theorem pair is not built; see DESIGN.md §5 and §8 (build order)"
